@@ -1,11 +1,14 @@
 #!/bin/sh
-# validate_all.sh Cxx … : validate every patchN/demoN of the given seed dirs, results in /tmp/seed/results/
-mkdir -p /tmp/seed/results
+# validate_all.sh Cxx … : validate every patchN/demoN of the given seed dirs under $SEEDROOT (default /tmp/seed),
+# results in $SEEDROOT/results/
+R=${SEEDROOT:-/tmp/seed}
+T=$(basename $R)
+mkdir -p $R/results
 for id in "$@"; do
   for n in 1 2; do
-    p=/tmp/seed/$id/_out/patch$n.diff; d=/tmp/seed/$id/_out/demo$n.py
+    p=$R/$id/_out/patch$n.diff; d=$R/$id/_out/demo$n.py
     [ -f "$p" ] && [ -f "$d" ] || continue
-    python3 /verif/tools/validate_seed.py "$p" "$d" /tmp/valseed_${id}_$n > /tmp/seed/results/${id}_$n.json 2>&1
-    echo "$id $n $(python3 -c "import json;print(json.load(open('/tmp/seed/results/${id}_$n.json')).get('valid'))" 2>/dev/null)"
+    python3 /verif/tools/validate_seed.py "$p" "$d" /tmp/valseed_${T}_${id}_$n > $R/results/${id}_$n.json 2>&1
+    echo "$id $n $(python3 -c "import json;print(json.load(open('$R/results/${id}_$n.json')).get('valid'))" 2>/dev/null)"
   done
 done
